@@ -76,7 +76,7 @@ def subAll (m t : Int) : Int × Nat := subLoop m ((t / m).toNat + 1) t 0
 ```
 pre:   if (m == 0 || m < 0) THROW;  u = 2^(2·used(m)·w) / m
 barrt: if (m == 0 || m < 0) THROW;
-       if (|a| < m) { c = a; return; }                        -- the sign of a is kept
+       if (|a| < m) { c = a; if (c < 0) c += m; return; }     -- (fix 060ee71: the residue, not the signed copy)
        if (used(a) > 2·used(m)) { c = a mod m (bn_mod_basic); return; }
        neg = a < 0; c = |a|;
        q = c >> (k-1)w;   t = q·u  (bn_muld_low with lower limit mu: the code's `mu` is always 0 — see below — so the full product);
@@ -84,13 +84,13 @@ barrt: if (m == 0 || m < 0) THROW;
        q = t mod B^(k+1); t = c mod B^(k+1); t = t - q;
        if (t < 0) t += B^(k+1);
        while (t >= m) t -= m;
-       c = t; if (neg) c = m - c;                              -- for m | a, a < 0 this returns m, not 0
+       c = t; if (neg && c != 0) c = m - c;                    -- (fix 060ee71: m | a gives 0, not m)
 ```
 `mu = u->used - q->used`; in the branch taken (q->used ≤ u->used) the code sets `mu = (mu > u->used - q->used ? … : 0)`, which is 0. -/
 
 /-- which path of bn_mod_barrt a call takes -/
 inductive BarrtPath where
-  | early                              -- |a| < m: copy
+  | early                              -- |a| < m: copy (+ m for a negative a)
   | long                               -- used(a) > 2·used(m): bn_mod_basic
   | main (wrap : Bool) (corr : Nat)    -- Barrett proper: r1 - r2 was negative; number of subtractions of m
   deriving Repr, DecidableEq
@@ -117,11 +117,11 @@ def barrtCore (w k : Nat) (c m u : Int) : Int × Bool × Nat :=
 def modBarrt (w : Nat) (a m u : Int) : Option (Int × BarrtPath) :=
   if m ≤ 0 then none else
   let k := used w m.toNat
-  if a.natAbs < m.natAbs then some (a, .early)
+  if a.natAbs < m.natAbs then some (if a < 0 then a + m else a, .early)
   else if used w a.natAbs > 2 * k then some (a % m, .long)
   else
     let (t, wrap, n) := barrtCore w k (a.natAbs : Int) m u
-    some (if a < 0 then m - t else t, .main wrap n)
+    some (if a < 0 ∧ t ≠ 0 then m - t else t, .main wrap n)
 
 /-- the harness line `nt_mod barrt a m`: bn_mod_pre_barrt then bn_mod_barrt -/
 def modBarrtFull (w : Nat) (a m : Int) : Option (Int × BarrtPath) :=
@@ -218,7 +218,7 @@ pmers: bits = bits(m); if (m <= 0) THROW;
        q = c >> bits; c = c mod 2^bits;
        while (bits > 0 && q != 0) { t = q·u (bn_mul_dig if u has one digit); q = t >> bits; t = t mod 2^bits; c += t; }
        while (bits > 0 && |c| >= m) c -= m;
-       if (neg) c = m - c;                                  -- for m | a, a < 0 this returns m, not 0
+       if (neg && c != 0) c = m - c;                        -- (fix 060ee71: m | a gives 0, not m)
 ```
 (bits > 0 always holds for m > 0.) -/
 
@@ -245,7 +245,7 @@ def modPmers (a m u : Int) : Option (Int × Nat × Nat) :=
   | none => none
   | some (c, rounds) =>
     let (c, n) := subAll m c
-    some (if a < 0 then m - c else c, rounds, n)
+    some (if a < 0 ∧ c ≠ 0 then m - c else c, rounds, n)
 
 def modPmersFull (a m : Int) : Option (Int × Nat × Nat) :=
   match prePmers m with
